@@ -3,6 +3,13 @@
 import sys, os, importlib
 sys.path.insert(0, os.path.dirname(os.path.dirname(os.path.abspath(__file__))))
 import z3
+if os.environ.get('QID'):
+    _orig = z3.ForAll
+    def _F(vs, body, weight=1, qid='', skid='', patterns=[], no_patterns=[]):
+        import re
+        q = qid or ('Q_' + re.sub(r'[^A-Za-z0-9_]+', '_', str(patterns[0]))[:70] if patterns else 'Q_nopat_' + re.sub(r'[^A-Za-z0-9_]+', '_', str(vs))[:40])
+        return _orig(vs, body, weight, q, skid, patterns, no_patterns)
+    z3.ForAll = _F
 from pyvc.contract import REGISTRY
 from pyvc.executor import Executor
 from pyvc.natives import NATIVES, find_function, val_order_axioms
